@@ -286,3 +286,69 @@ def gen_spec(k, cfg):
 
     add("sys", "System", {"usage_patterns": ["refs", ups]})
     return {"objs": objs, "order": order}
+
+
+def full_spec(k, cfg):
+    """A topology containing at least one object of each of the 18 public classes (used by the fault
+    catalogues); numbers are drawn like in gen_spec."""
+    r = k.rng("full-topology")
+    nice = cfg.get("nice_numbers", False)
+    objs, order = {}, []
+
+    def add(name, cls, attrs):
+        src = {a: r.choice(SOURCES) for a, v in attrs.items() if v is not None and v[0] in ("q", "s", "tz", "h")}
+        objs[name] = {"cls": cls, "attrs": attrs, "src": src}
+        order.append(name)
+        return name
+
+    def nums(cls):
+        return {a: qv(r, cls, a, nice, 0.2) for a in NUM_DEFAULTS.get(cls, {})}
+
+    for i in (1, 2, 3):
+        a = nums("Storage")
+        a["fixed_nb_of_instances"] = ["e"]
+        add(f"st{i}", "Storage", a)
+    a = nums("Server"); a.update({"server_type": ["s", "on-premise"], "fixed_nb_of_instances": ["q", 50000.0, "dimensionless"],
+                                  "storage": ["ref", "st1"]})
+    add("srv1", "Server", a)
+    a = nums("BoaviztaCloudServer"); a.update({"server_type": ["s", "autoscaling"], "fixed_nb_of_instances": ["e"],
+                                               "storage": ["ref", "st2"], "provider": ["s", "scaleway"],
+                                               "instance_type": ["s", "ent1-m"]})
+    add("srv2", "BoaviztaCloudServer", a)
+    a = nums("GPUServer"); a.update({"server_type": ["s", "serverless"], "fixed_nb_of_instances": ["e"],
+                                     "storage": ["ref", "st3"]})
+    add("srv3", "GPUServer", a)
+    a = nums("VideoStreaming"); a["server"] = ["ref", "srv1"]
+    add("svc1", "VideoStreaming", a)
+    add("svc2", "WebApplication", {"server": ["ref", "srv2"], "technology": ["s", r.choice(TECHNOLOGIES)]})
+    a = nums("GenAIModel"); a.update({"server": ["ref", "srv3"], "provider": ["s", "mistralai"],
+                                      "model_name": ["s", "open-mistral-7b"]})
+    add("svc3", "GenAIModel", a)
+    a = nums("Job"); a["server"] = ["ref", "srv1"]
+    add("j1", "Job", a)
+    a = nums("VideoStreamingJob"); a.update({"service": ["ref", "svc1"], "resolution": ["s", RESOLUTIONS[1]]})
+    add("j2", "VideoStreamingJob", a)
+    a = nums("WebApplicationJob"); a.update({"service": ["ref", "svc2"], "implementation_details": ["s", "default"]})
+    add("j3", "WebApplicationJob", a)
+    a = nums("GenAIJob"); a["service"] = ["ref", "svc3"]
+    add("j4", "GenAIJob", a)
+    add("step1", "UsageJourneyStep", {"user_time_spent": qv(r, "UsageJourneyStep", "user_time_spent", nice),
+                                      "jobs": ["refs", ["j1", "j2"]]})
+    add("step2", "UsageJourneyStep", {"user_time_spent": qv(r, "UsageJourneyStep", "user_time_spent", nice),
+                                      "jobs": ["refs", ["j3", "j4", "j1"]]})
+    add("uj1", "UsageJourney", {"uj_steps": ["refs", ["step1", "step2"]]})
+    add("dev1", "Device", nums("Device"))
+    add("dev2", "Device", nums("Device"))
+    a = nums("Country"); a.update({"short_name": ["str", "C1"], "timezone": ["tz", r.choice(ZONES)]})
+    add("c1", "Country", a)
+    add("net1", "Network", nums("Network"))
+    start = r.choice(STARTS)
+    n = r.choice([6, 12, 24])
+    for i in (1, 2):
+        add(f"up{i}", "UsagePattern", {
+            "usage_journey": ["ref", "uj1"], "devices": ["refs", ["dev1"] if i == 1 else ["dev1", "dev2"]],
+            "network": ["ref", "net1"], "country": ["ref", "c1"],
+            "hourly_usage_journey_starts": ["h", start if i == 1 else shift_start(start, 2),
+                                            [x / 10 for x in series(r, n, nice)], "dimensionless"]})
+    add("sys", "System", {"usage_patterns": ["refs", ["up1", "up2"]]})
+    return {"objs": objs, "order": order}
